@@ -19,6 +19,10 @@ RULE = ('state = one table (or one ordered pair of tables for dataJoin, one type
         'distinct marker values) x key expressions x flag. Scripts: the same operations through parse_script/'
         'execute_script with the table as a global and counts as float literals. CSV: every typed table of <= R rows x 2 '
         'columns, written by the reference writer, read as one string, as separate line strings and from a script. '
+        'Calendar ends: every table of <= 3 rows whose column a is drawn from {null, 0001-01-01T00:00:00+23:59, '
+        '9999-12-31T23:59:59-23:59, 9999-12-31T23:59:59Z, 0001-01-01T00:00:00Z, a valid date-time, abc} under UTC and DST zones: '
+        'a text whose local time does not exist in years 1..9999 stays a string and the rest of the table is parsed '
+        '(non-trivial: the table holds such a text). '
         'Delicate measures: every table of <= N rows with a in {absent,1,2} and measure b in {absent, null, 100000001, '
         '100000002, 100000003, 0.1, 0.2, 0.3, 1e+15, -1e+15} x 6 functions x 2 category lists against an exact (fractions) '
         'reference with tolerances a sound float evaluation meets (non-trivial: a category with >= 2 different values). '
@@ -1154,6 +1158,87 @@ def fam_csv_tz(arg):
 
 
 # ---------------------------------------------------------------------------------------------------------------------
+# family csv_edge: well-formed date-like cells at the ends of the calendar. Where the local time of the process zone does
+# not exist in years 1..9999 the text merely resembles a date: it stays a string and the parse goes on.
+# ---------------------------------------------------------------------------------------------------------------------
+
+EDGE_ZONES = {'quick': ['UTC', 'America/New_York', 'Australia/Lord_Howe'],
+              'thorough': ['UTC', 'America/New_York', 'Australia/Lord_Howe', 'Pacific/Chatham', 'Europe/London']}
+EDGE_CELLS = [None, '0001-01-01T00:00:00+23:59', '9999-12-31T23:59:59-23:59', '9999-12-31T23:59:59Z', '0001-01-01T00:00:00Z',
+              '2024-07-15T12:00:00Z', 'abc']
+EDGE_SECOND = [(None, 'null'), (1, 'num')]
+EDGE_ROWS = 3
+
+
+def edge_value(cell, zone):
+    """-> expected value of the cell when read under `zone`: null, a datetime, or the text itself."""
+    if cell is None or cell == 'abc':
+        return cell
+    local = rd.edge_datetime(cell, zone)
+    return cell if local is None else local
+
+
+def check_csv_edge(case, acc):
+    zone = case['tz']
+    impl()
+    set_zone(zone)
+    col1 = [EDGE_CELLS[i] for i in case['cols'][0]]
+    col2 = [EDGE_SECOND[i] for i in case['cols'][1]]
+    values = [edge_value(c, zone) for c in col1]
+    kinds = {rv.rtype(v) for v in values if v is not None}
+    hit = any(isinstance(v, str) and v != 'abc' for v in values)
+    if len(kinds) > 1 or any(v is rd.UNSPECIFIED for v in values):
+        acc.unspecified += 1        # a column mixing datetimes and strings is not a typed table (which type wins is not documented)
+        return hit
+    lines = [','.join(CSV_FIELDS)] + [','.join([rd.csv_quote('null' if c is None else c), rd.csv_quote(rd.cell_text(v, st))])
+                                      for c, (v, st) in zip(col1, col2)]
+    want = [{'a': v, 'b': b} for v, (b, _) in zip(values, col2)]
+    text = '\n'.join(lines)
+    for k, mode in enumerate(CSV_MODES):
+        if case.get('variant', k) != k:
+            continue
+        if mode == 'one string':
+            ok, res = call(acc, 'dataParseCSV', [text])
+        elif mode == 'line strings':
+            ok, res = call(acc, 'dataParseCSV', list(lines))
+        else:
+            ok, res = run_script(acc, CSV_SCRIPT, {'text': text})
+        acc.traces += 1
+        c2 = dict(case, variant=k, op=f'dataParseCSV as {mode} under TZ={zone}', csv=lines)
+        if not ok:
+            acc.violation(c2, canon_flat(want), res, 'dataParseCSV raised instead of keeping the date-like text as a string')
+        elif not isinstance(res, list) or any(not isinstance(r, dict) for r in res) or len(res) != len(want):
+            acc.violation(c2, canon_flat(want), canon_flat(res), 'dataParseCSV did not return one row object per line (the parse was aborted)')
+        else:
+            for ri, (got, exp) in enumerate(zip(res, want)):
+                bad = [f for f in CSV_FIELDS if canon_flat(got.get(f)) != canon_flat(exp[f])]
+                if bad:
+                    acc.violation(c2, canon_flat(want), canon_flat(res), f'row {ri} field {bad[0]}: read back {got.get(bad[0])!r}, expected {exp[bad[0]]!r} in {zone}')
+                    break
+    acc.outcome((zone, tuple(repr(v) for v in values[:2])))
+    return hit
+
+
+def csv_edge_size(tier):
+    return len(EDGE_ZONES[tier]) * sum((len(EDGE_CELLS) * len(EDGE_SECOND)) ** r for r in range(EDGE_ROWS + 1))
+
+
+def fam_csv_edge(arg):
+    zone, r = arg
+    acc = Acc('csv_edge')
+    for c1 in itertools.product(range(len(EDGE_CELLS)), repeat=r):
+        for c2 in itertools.product(range(len(EDGE_SECOND)), repeat=r):
+            acc.cases += 1
+            acc.states += 1
+            if check_csv_edge({'tz': zone, 'cols': [list(c1), list(c2)]}, acc):
+                acc.nontrivial += 1
+            if r == 2 and c1 == (3, 4) and c2 == (1, 0):
+                acc.sample({'tz': zone, 'csv': ['a,b', f'{EDGE_CELLS[3]},1', f'{EDGE_CELLS[4]},null'],
+                            'expected_a': [repr(edge_value(EDGE_CELLS[i], zone)) for i in (3, 4)]})
+    return acc.result()
+
+
+# ---------------------------------------------------------------------------------------------------------------------
 # families
 # ---------------------------------------------------------------------------------------------------------------------
 
@@ -1206,12 +1291,16 @@ def families(tier):
                f'process time zones {TZ_ZONES[tier]} (set with time.tzset at the start of the shard): every table of <= 2 rows x 2 datetime '
                f'columns, first column from {len(TZ_CELLS)} cells (null, 2 date texts, 4 instants in January/July x spellings {TZ_SPELLINGS}), '
                f'second from {len(TZ_SECOND[tier])} of them x 3 reading modes', expected=csv_tz_size(tier, 2)),
+        Family('csv_edge', fam_csv_edge, [(z, r) for z in EDGE_ZONES[tier] for r in range(EDGE_ROWS + 1)],
+               f'process time zones {EDGE_ZONES[tier]}: every table of <= {EDGE_ROWS} rows, column a from {len(EDGE_CELLS)} cells (null, 4 well-formed '
+               'date-time texts at the ends of the calendar, a valid date-time, abc), column b from {null, 1} x 3 reading modes; per zone '
+               'the reference says datetime or string', expected=csv_edge_size(tier)),
     ]
 
 
 _CHECKS = {'filter': check_filter, 'sort': check_sort, 'top': check_top, 'aggregate': check_aggregate, 'calc': check_calc,
            'join_keys': check_join_keys, 'join_names': check_join_names, 'script': check_script, 'csv': check_csv,
-           'aggregate_num': check_aggregate_num, 'keykinds': check_keykinds, 'join_keykinds': check_join_keykinds, 'csv_tz': check_csv_tz}
+           'aggregate_num': check_aggregate_num, 'keykinds': check_keykinds, 'join_keykinds': check_join_keykinds, 'csv_tz': check_csv_tz, 'csv_edge': check_csv_edge}
 
 
 def replay(family, case):
